@@ -1375,17 +1375,19 @@ func bindHeaderNames(st *State, header *ssa.BasicBlock) {
 		if !ok {
 			continue
 		}
+		s := "(+ " + pv.S + " 1)"
+		if strings.HasPrefix(pv.Sort, "(_ BitVec") {
+			s = "(bvadd " + pv.S + " (_ bv1 " + strings.TrimSuffix(strings.TrimPrefix(pv.Sort, "(_ BitVec "), ")") + "))"
+		}
+		// (`for _, x := range s` has no source name for the index: the hidden
+		// counter itself is available as "rangeindex" = index of the element
+		// processed last, -1 at entry)
 		for _, ref := range *b.Referrers() {
 			d, ok := ref.(*ssa.DebugRef)
 			if !ok || d.IsAddr {
 				continue
 			}
 			if id, ok := d.Expr.(*ast.Ident); ok {
-				one := "1"
-				s := "(+ " + pv.S + " " + one + ")"
-				if strings.HasPrefix(pv.Sort, "(_ BitVec") {
-					s = "(bvadd " + pv.S + " (_ bv1 " + strings.TrimSuffix(strings.TrimPrefix(pv.Sort, "(_ BitVec "), ")") + "))"
-				}
 				st.names[id.Name] = &Term{s, pv.Sort, pv.T}
 			}
 		}
